@@ -610,6 +610,9 @@ def refine_droplet(
 
     # apply the mask
     data_mask = phase_field.data[mask]
+    if not np.issubdtype(data_mask.dtype, np.inexact):
+        # intensities of boolean and integer images need to be treated as real numbers
+        data_mask = data_mask.astype(float)
     if data_mask.size == 0:
         # the droplet does not cover any support point, so there is nothing to fit
         return droplet
